@@ -415,7 +415,7 @@ def gen_arch(rng, modules, all_named, universe=(), p_regex=0.35):
     return layers
 
 
-def gen_puml(rng, tree, modules):
+def gen_puml(rng, tree, modules, p_ghost=0.2, p_alias=0.35):
     """Diagram over the children of one package. Returns (text, base module, components, tags)."""
     pkgs = sorted({m.rsplit(".", 1)[0] for m in modules if "." in m})
     if not pkgs:
@@ -424,7 +424,7 @@ def gen_puml(rng, tree, modules):
     kids = sorted({m[len(base) + 1:] for m in modules
                    if m.startswith(base + ".") and "." not in m[len(base) + 1:]
                    and not m.endswith("__init__")})
-    if rng.random() < 0.2:
+    if rng.random() < p_ghost:
         kids.append(pick(rng, ["ghost", "phantom"]))  # component that is not a module
     if len(kids) < 2:
         return None
@@ -434,7 +434,7 @@ def gen_puml(rng, tree, modules):
     style = rng.random()
     declared = []
     alias = {}  # component name -> alias usable in arrows
-    use_alias = rng.random() < 0.35
+    use_alias = rng.random() < p_alias
     for c in comps:
         r = rng.random()
         if use_alias and r < 0.5:
@@ -480,10 +480,16 @@ def gen_puml(rng, tree, modules):
         a = pick(rng, sorted(alias))
         targets = [c for c in comps if c != a]
         rng.shuffle(targets)
-        for k, t in enumerate(targets[:2]):
+        targets.sort(key=lambda c: c not in ("ghost", "phantom"))  # a non-module, if any, first
+        forms = [0, 1]
+        rng.shuffle(forms)
+        for k, t in zip(forms, targets[:2]):
             la = (f"[{a}]" if style < 0.5 else a) if k == 0 else alias[a]
             lt = f"[{t}]" if style < 0.5 else t
-            arrows.insert(rng.randrange(len(arrows) + 1), f"{la} --> {lt}")
+            r = rng.random()
+            line = (f"{la} --> {lt}" if r < 0.4 else f"{la} -> {lt}" if r < 0.5 else
+                    f"{lt} <-- {la}" if r < 0.8 else f"{lt} <- {la}" if r < 0.9 else f"{la} -up-> {lt}")
+            arrows.insert(rng.randrange(len(arrows) + 1), line)
             mentioned.update((a, t))
     text = "@startuml\n\n" + "\n".join(lines) + "\n\n" + "\n".join(arrows) + "\n\n@enduml\n"
     used = sorted(mentioned)
